@@ -230,6 +230,9 @@ func storeDiff(ctx *Ctx) error {
 		if err != nil {
 			return err
 		}
+		if bulkReplay(ctx, b) {
+			return nil
+		}
 		var w struct {
 			Ops SDCase `json:"ops"`
 		}
@@ -243,6 +246,9 @@ func storeDiff(ctx *Ctx) error {
 	for i := 0; i < ctx.Cases; i++ {
 		c := genSDCase(r)
 		runSDCase(ctx, c)
+	}
+	if ctx.Has("C01") || ctx.Has("C02") {
+		sdBulkCase(ctx, r)
 	}
 	return nil
 }
